@@ -1,1 +1,280 @@
-import RaftLogModel.Model.Sys
+/-
+C10 — A torn or zero-filled tail of the newest chunk is cut at the end of the
+last complete record (if `truncate` is configured) or reported, never
+mis-parsed.
+
+`encAll rs` is the concatenation of the encodings of `rs`; `AllWF rs` says every
+record holds values the Rust types can hold. Helpers: `Proofs/Parse.lean`.
+-/
+import RaftLogModel.Proofs.Recover
+namespace RaftLog
+
+/-- Every record encoding is non-empty (at least 4 + 8 bytes), so the fuel
+`data.length + 1` of `parseChunk` always suffices. -/
+theorem c10_encRecord_length_pos (r : Record) : 12 ≤ (encRecord r).length :=
+  encRecord_length_ge r
+
+/-- (a) An undamaged file parses to exactly its records, cleanly. -/
+theorem parse_encAll {rs : List Record} (h : AllWF rs) :
+    parseChunk (encAll rs) = (rs.map (fun r => (r, (encRecord r).length)), .clean, []) :=
+  parse_encAll' h
+
+/-- (b) A file cut inside a record (`pfx` is a non-empty strict prefix of the
+encoding of `r`) parses to the complete records before the cut and ends with
+`eof` at the torn record. -/
+theorem parse_cut {rs : List Record} {r : Record} {pfx : Bytes} (h : AllWF rs) (hr : r.WF)
+    (hp : pfx ≠ [] ∧ ∃ t, t ≠ [] ∧ pfx ++ t = encRecord r) :
+    parseChunk (encAll rs ++ pfx) = (rs.map (fun r => (r, (encRecord r).length)), .eof, pfx) :=
+  parse_cut' h hr hp.1 hp.2
+
+/-- (a)+(b): every cut position `k` of a file `encAll (rs ++ [r] ++ rest)` that
+falls inside `r` (`k = |encAll rs| + j`, `0 < j < |encRecord r|`) yields the
+complete records before `k`. (A cut at a record boundary is case (a).) -/
+theorem parse_cut_at {rs rest : List Record} {r : Record} (h : AllWF rs) (hr : r.WF) (j : Nat)
+    (h0 : 0 < j) (hj : j < (encRecord r).length) :
+    parseChunk ((encAll (rs ++ [r] ++ rest)).take ((encAll rs).length + j)) =
+      (rs.map (fun r => (r, (encRecord r).length)), .eof, (encRecord r).take j) := by
+  have e : (encAll (rs ++ [r] ++ rest)).take ((encAll rs).length + j)
+      = encAll rs ++ (encRecord r).take j := by
+    rw [encAll_appendP, encAll_appendP, List.append_assoc]
+    simp only [encAll_cons, encAll_nil, List.append_nil]
+    rw [List.take_length_add_append, List.take_append_of_le_length (Nat.le_of_lt hj)]
+  rw [e]
+  apply parse_cut h hr
+  refine ⟨?_, (encRecord r).drop j, ?_, List.take_append_drop j _⟩
+  · intro hn
+    have := congrArg List.length hn
+    simp only [List.length_take, List.length_nil] at this; omega
+  · intro hn
+    have := congrArg List.length hn
+    simp only [List.length_drop, List.length_nil] at this; omega
+
+/-- (c) A zero-filled tail of `m ≥ 1` bytes: the records before it are returned;
+the iteration ends with `eof` if `m < 28` and with `invalid` if `m ≥ 28` (28 zero
+bytes decode as tag 0 = `SaveVote`, a 16-byte log id and the stored checksum 0,
+which is not the CRC-32 of 20 zero bytes). -/
+theorem parse_zero_tail {rs : List Record} (h : AllWF rs) {m : Nat} (hm : 1 ≤ m) :
+    parseChunk (encAll rs ++ List.replicate m 0) =
+      (rs.map (fun r => (r, (encRecord r).length)),
+        (if m < 28 then ParseEnd.eof else ParseEnd.invalid), List.replicate m 0) :=
+  parse_zero_tail' h hm
+
+theorem c10_crc32_zeros_ne_zero : crc32 (List.replicate 20 0) ≠ 0 := crc32_zeros20
+
+/-- (d) `Chunk::open` on an undamaged file: all records, no truncation, for
+both settings of `truncate`. -/
+theorem c10_clean_open (cfg : Cfg) (id : Nat) {rs : List Record} (h : AllWF rs) :
+    openChunk cfg id (encAll rs)
+      = .ok ⟨rs, offsetsFrom id (rs.map (fun r => (encRecord r).length)), none⟩ := by
+  rw [openChunk_of_parse (parse_encAll' h)]; rfl
+
+/-- (d) `Chunk::open` on a file cut inside a record: with `truncate = true`
+exactly the complete records are returned and the file is to be cut at the end
+of the last complete record; with `truncate = false` the error is `eof`. -/
+theorem c10_cut_truncate (cfg : Cfg) (id : Nat) {rs : List Record} {r : Record} {pfx : Bytes}
+    (h : AllWF rs) (hr : r.WF) (hp : pfx ≠ [] ∧ ∃ t, t ≠ [] ∧ pfx ++ t = encRecord r) :
+    openChunk cfg id (encAll rs ++ pfx) =
+      if cfg.truncate then
+        .ok ⟨rs, offsetsFrom id (rs.map (fun r => (encRecord r).length)), some (encAll rs).length⟩
+      else .error .eof := by
+  rw [openChunk_of_parse (parse_cut' h hr hp.1 hp.2)]; rfl
+
+/-- (d) `Chunk::open` on a file with a zero-filled tail: with `truncate = true`
+the records before the zeros are returned and the file is cut there; with
+`truncate = false` the result is an error (`eof` for fewer than 28 zeros,
+`invalid` otherwise), never `ok`. -/
+theorem c10_zero_truncate (cfg : Cfg) (id : Nat) {rs : List Record} (h : AllWF rs) {m : Nat}
+    (hm : 1 ≤ m) :
+    openChunk cfg id (encAll rs ++ List.replicate m 0) =
+      if cfg.truncate then
+        .ok ⟨rs, offsetsFrom id (rs.map (fun r => (encRecord r).length)), some (encAll rs).length⟩
+      else if m < 28 then .error .eof else .error .invalid := by
+  rw [openChunk_of_parse (parse_zero_tail' h hm)]
+  by_cases h28 : m < 28 <;> simp [h28, chunkResult, allZero_replicate]
+
+/-! ### (e) Lifting to `RaftLog::open` -/
+
+/-- (e), general form. The linked ids are `ids ++ [i]`; the chunks `ids` load
+cleanly (`Loads`, see `Proofs/Recover.lean`); the newest file `i` starts where
+they end and holds the well-formed records `rs ≠ []` followed by a torn tail
+(`TornTail`: a non-empty strict prefix of a record encoding, or `m ≥ 1` zero
+bytes); replaying `rs` succeeds with store `sm2`; `truncate` is configured and
+no linked file is named `i + |encAll rs|`. Then `open` succeeds, cuts file `i`
+to `|encAll rs|` bytes, creates a chunk with id `i + |encAll rs|` whose content
+is the `State` record of the replayed state, and touches no other file. -/
+theorem c10_open_truncates_and_creates (cfg : Cfg) (fs : Fs) (ids : List Nat) (i : Nat)
+    (a' : OpenAcc) (f : File) (rs : List Record) (tail : Bytes) (sm2 : Store)
+    (ht : cfg.truncate = true)
+    (hids : fs.linkedIds = ids ++ [i])
+    (hload : Loads cfg ids { sm := emptyStore cfg, fs := fs } a')
+    (habut : gapCheck a' i = false)
+    (hfind : fs.find i = some f) (hd : f.data = encAll rs ++ tail)
+    (hwf : AllWF rs) (hne : rs ≠ []) (htail : TornTail tail)
+    (hr : replay i rs (offsetsFrom i (rs.map (fun r => (encRecord r).length))) a'.pre.sm = .ok sm2)
+    (hfree : fs.has (i + (encAll rs).length) = false) :
+    ∃ s w fs',
+      openStore cfg fs = (.ok (s, w), fs',
+        [.trunc "o" i (encAll rs).length, .sync "o" i true,
+         .create "o" (i + (encAll rs).length) true,
+         .write "o" (i + (encAll rs).length) (encRecord (.state sm2.st)) true]) ∧
+      s.st = sm2.st ∧
+      s.openOffsets = [i + (encAll rs).length,
+        i + (encAll rs).length + (encRecord (.state sm2.st)).length] ∧
+      w.files = [⟨i + (encAll rs).length, sm2.st.last⟩] ∧
+      fs'.find i = some { f with data := encAll rs,
+                                 durable := min f.durable (encAll rs).length } ∧
+      fs'.find (i + (encAll rs).length)
+        = some { id := i + (encAll rs).length, data := encRecord (.state sm2.st), durable := 0,
+                 linked := true } ∧
+      ∀ id, id ≠ i → id ≠ i + (encAll rs).length → fs'.find id = fs.find id := by
+  obtain ⟨hfs, hevs⟩ := hload.fs_evs
+  have hfs' : a'.fs = fs := hfs
+  have hevs' : a'.evs = [] := hevs
+  have hfind' : a'.fs.find i = some f := by rw [hfs']; exact hfind
+  have hl := openLoop_torn_last ht habut hfind' hd hwf hne htail hr
+  have hloop : openLoop cfg fs.linkedIds { sm := emptyStore cfg, fs := fs }
+      = (.ok (a'.loadedTrunc i rs sm2), a'.loadedTrunc i rs sm2) := by
+    rw [hids, hload.openLoop_append, hl]
+  have hlen := encAll_length_pos hne
+  have hprev : (a'.loadedTrunc i rs sm2).prevEnd.getD 0 = i + (encAll rs).length := by
+    simp only [OpenAcc.loadedTrunc, lastOff_sized, Option.getD_some]
+  have hafs : (a'.loadedTrunc i rs sm2).fs = fs.truncate i (encAll rs).length := by
+    simp only [OpenAcc.loadedTrunc, OpenAcc.afterTrunc, OpenAcc.pre, hfs']
+  have hhas : (a'.loadedTrunc i rs sm2).fs.has (i + (encAll rs).length) = false := by
+    rw [hafs, Fs.has_truncate]; exact hfree
+  have hst := openStore_fresh hloop (Or.inl rfl) hprev hhas
+  have hev : (a'.loadedTrunc i rs sm2).evs
+      = [.trunc "o" i (encAll rs).length, .sync "o" i true] := by
+    simp only [OpenAcc.loadedTrunc, OpenAcc.afterTrunc, OpenAcc.pre, hevs', List.nil_append]
+  have hcl : prevLastOf (a'.loadedTrunc i rs sm2).sm.closed = sm2.st.last :=
+    prevLastOf_concat _ _
+  have hsm : (a'.loadedTrunc i rs sm2).sm.st = sm2.st := rfl
+  rw [hev, hcl, hsm, hafs] at hst
+  obtain ⟨hnew, hother⟩ := find_create_write (fs.truncate i (encAll rs).length)
+    (i + (encAll rs).length) (encRecord (.state sm2.st))
+  refine ⟨_, _, _, hst, rfl, rfl, rfl, ?_, hnew, ?_⟩
+  · rw [hother i (by omega), Fs.find_truncate, hfind]
+    have hid : (f.id == i) = true := by rw [find_id hfind]; exact beq_self_eq_true i
+    simp only [Option.map_some, hid, if_true, hd, List.take_left' rfl]
+  · intro id h1 h2
+    rw [hother id h2, Fs.find_truncate]
+    cases hf : fs.find id with
+    | none => rfl
+    | some g =>
+      have : (g.id == i) = false := by rw [find_id hf]; exact beq_false_of_ne h1
+      simp only [Option.map_some, this, Bool.false_eq_true, if_false]
+
+/-- (e) for a single-chunk directory with arbitrary records `rs ≠ []`: the
+directory after `open` is given explicitly. -/
+theorem c10_open_single_chunk' (cfg : Cfg) (i d : Nat) (rs : List Record)
+    (tail : Bytes) (sm2 : Store) (ht : cfg.truncate = true)
+    (hwf : AllWF rs) (hne : rs ≠ []) (htail : TornTail tail)
+    (hr : replay i rs (offsetsFrom i (rs.map (fun r => (encRecord r).length)))
+      (emptyStore cfg) = .ok sm2) :
+    ∃ s w,
+      openStore cfg [{ id := i, data := encAll rs ++ tail, durable := d, linked := true }] =
+        (.ok (s, w),
+          [{ id := i, data := encAll rs, durable := min d (encAll rs).length, linked := true },
+           { id := i + (encAll rs).length, data := encRecord (.state sm2.st),
+             durable := 0, linked := true }],
+          [.trunc "o" i (encAll rs).length, .sync "o" i true,
+           .create "o" (i + (encAll rs).length) true,
+           .write "o" (i + (encAll rs).length) (encRecord (.state sm2.st)) true]) ∧
+      s.st = sm2.st ∧
+      s.openOffsets = [i + (encAll rs).length,
+        i + (encAll rs).length + (encRecord (.state sm2.st)).length] ∧
+      w.files = [⟨i + (encAll rs).length, sm2.st.last⟩] := by
+  have hlen := encAll_length_pos hne
+  generalize hL : encAll rs = L at *
+  let f : File := { id := i, data := L ++ tail, durable := d, linked := true }
+  have hids : Fs.linkedIds [f] = [i] := by simp [Fs.linkedIds, f, insertNat]
+  have hfind : Fs.find [f] i = some f := by simp [Fs.find, f]
+  have hne' : (i == i + L.length) = false := by apply beq_false_of_ne; omega
+  have hl := openLoop_torn_last (cfg := cfg) (a := { sm := emptyStore cfg, fs := [f] }) ht rfl
+    hfind (by rw [hL]) hwf hne htail hr
+  have hloop : openLoop cfg (Fs.linkedIds [f]) { sm := emptyStore cfg, fs := [f] }
+      = (.ok (OpenAcc.loadedTrunc { sm := emptyStore cfg, fs := [f] } i rs sm2),
+          OpenAcc.loadedTrunc { sm := emptyStore cfg, fs := [f] } i rs sm2) := by
+    rw [hids]; exact hl
+  have hprev : (OpenAcc.loadedTrunc { sm := emptyStore cfg, fs := [f] } i rs sm2).prevEnd.getD 0
+      = i + L.length := by
+    simp only [OpenAcc.loadedTrunc, lastOff_sized, Option.getD_some, hL]
+  have hafs : (OpenAcc.loadedTrunc { sm := emptyStore cfg, fs := [f] } i rs sm2).fs
+      = [{ id := i, data := L, durable := min d L.length, linked := true }] := by
+    simp [OpenAcc.loadedTrunc, OpenAcc.afterTrunc, OpenAcc.pre, Fs.truncate, Fs.update, f, hL]
+  have hhas : (OpenAcc.loadedTrunc { sm := emptyStore cfg, fs := [f] } i rs sm2).fs.has
+      (i + L.length) = false := by
+    rw [hafs]; simp [Fs.has, Fs.find, hne']
+  have hst := openStore_fresh hloop (Or.inl rfl) hprev hhas
+  have hev : (OpenAcc.loadedTrunc { sm := emptyStore cfg, fs := [f] } i rs sm2).evs
+      = [.trunc "o" i L.length, .sync "o" i true] := by
+    simp only [OpenAcc.loadedTrunc, OpenAcc.afterTrunc, OpenAcc.pre, List.nil_append, hL]
+  have hcl : prevLastOf (OpenAcc.loadedTrunc { sm := emptyStore cfg, fs := [f] } i rs sm2).sm.closed
+      = sm2.st.last := prevLastOf_concat _ _
+  have hsm : (OpenAcc.loadedTrunc { sm := emptyStore cfg, fs := [f] } i rs sm2).sm.st = sm2.st :=
+    rfl
+  rw [hev, hcl, hsm, hafs] at hst
+  have hfin : (Fs.create [{ id := i, data := L, durable := min d L.length, linked := true }]
+      (i + L.length)).write (i + L.length) (encRecord (.state sm2.st))
+      = [{ id := i, data := L, durable := min d L.length, linked := true },
+         { id := i + L.length, data := encRecord (.state sm2.st), durable := 0, linked := true }] := by
+    have hne'' : (i != i + L.length) = true := by simp [bne, hne']
+    have hLne : L ≠ [] := by intro h; rw [h] at hlen; simp at hlen
+    simp [Fs.create, Fs.write, Fs.update, hne'', hLne]
+  rw [hfin] at hst
+  exact ⟨_, _, hst, rfl, rfl, rfl⟩
+
+/-- (e) as asked: the single file holds `encAll (state st0 :: rs) ++ tail` with
+a torn tail; replaying the records from the empty store succeeds with `sm2`.
+`open` returns ok, the file is cut to `|encAll (state st0 :: rs)|` bytes and a
+new chunk with id `i + ` that length is created, whose content is the `State`
+record of the replayed state. -/
+theorem c10_open_single_chunk (cfg : Cfg) (i d : Nat) (st0 : RState) (rs : List Record)
+    (tail : Bytes) (sm2 : Store) (ht : cfg.truncate = true)
+    (hwf : AllWF (Record.state st0 :: rs)) (htail : TornTail tail)
+    (hr : replay i (Record.state st0 :: rs)
+      (offsetsFrom i ((Record.state st0 :: rs).map (fun r => (encRecord r).length)))
+      (emptyStore cfg) = .ok sm2) :
+    ∃ s w,
+      openStore cfg [{ id := i, data := encAll (Record.state st0 :: rs) ++ tail, durable := d,
+                       linked := true }] =
+        (.ok (s, w),
+          [{ id := i, data := encAll (Record.state st0 :: rs),
+             durable := min d (encAll (Record.state st0 :: rs)).length, linked := true },
+           { id := i + (encAll (Record.state st0 :: rs)).length,
+             data := encRecord (.state sm2.st), durable := 0, linked := true }],
+          [.trunc "o" i (encAll (Record.state st0 :: rs)).length, .sync "o" i true,
+           .create "o" (i + (encAll (Record.state st0 :: rs)).length) true,
+           .write "o" (i + (encAll (Record.state st0 :: rs)).length)
+             (encRecord (.state sm2.st)) true]) ∧
+      s.st = sm2.st ∧
+      s.openOffsets = [i + (encAll (Record.state st0 :: rs)).length,
+        i + (encAll (Record.state st0 :: rs)).length + (encRecord (.state sm2.st)).length] ∧
+      w.files = [⟨i + (encAll (Record.state st0 :: rs)).length, sm2.st.last⟩] :=
+  c10_open_single_chunk' cfg i d (Record.state st0 :: rs) tail sm2 ht hwf (by simp) htail hr
+
+/-! ### Non-vacuity (concrete bytes) -/
+
+/-- `commit (1,2)` then `saveVote (3,4)`; the second record cut after 5 bytes. -/
+example : parseChunk (encAll [.commit ⟨1, 2⟩] ++ (encRecord (.saveVote ⟨3, 4⟩)).take 5)
+    = ([(.commit ⟨1, 2⟩, 28)], .eof, [0, 0, 0, 0, 0]) := by decide +kernel
+
+example : (openChunk {} 7 (encAll [.commit ⟨1, 2⟩] ++ List.replicate 30 0)).toOption.map
+    (fun oc => (oc.records, oc.offsets, oc.truncatedTo))
+    = some ([.commit ⟨1, 2⟩], [7, 35], some 28) := by decide +kernel
+
+/-- (e) on concrete bytes: head `State` record, a `commit`, then a `saveVote`
+torn after 5 bytes. `open` cuts the file to 46 bytes and creates chunk 7 + 46. -/
+example : (openStore {} [{ id := 7, data := encAll [.state {}, .commit ⟨1, 2⟩]
+                            ++ (encRecord (.saveVote ⟨3, 4⟩)).take 5 }]).2.1
+    = [{ id := 7, data := encAll [.state {}, .commit ⟨1, 2⟩] },
+       { id := 53, data := encRecord (.state { committed := some ⟨1, 2⟩ }) }] := by
+  decide +kernel
+
+/-- The replay hypothesis of `c10_open_single_chunk` is satisfiable (same
+directory). -/
+example : (replay 7 [.state {}, .commit ⟨1, 2⟩]
+    (offsetsFrom 7 ([Record.state {}, .commit ⟨1, 2⟩].map (fun r => (encRecord r).length)))
+    (emptyStore {})).isOk = true := by decide +kernel
+
+end RaftLog
